@@ -42,7 +42,11 @@ func runLive(t *chaingen.Tree, cs Case, crashAt int, finalIdx int) (lo liveOutco
 		return len(nd.Steps) - 1
 	}
 	var err error
-	nd, err = storeobs.NewNode(t, rec, nil)
+	var db chain.DB = rec
+	if cs.Cache {
+		db = chain.NewCacheDB(rec) // its overlay dies with the process
+	}
+	nd, err = storeobs.NewNode(t, db, nil)
 	if err != nil {
 		lo.fail = &failure{"c03-store-does-not-open", err.Error(), -1}
 		return
